@@ -286,5 +286,7 @@ def run(ctx, progs):
     r12a(ctx, P)
     r12b(ctx, P)
     r12c(ctx, P)
+    from sa.rules.common import column_slots_rule
+    column_slots_rule(ctx, P, "R12.d")
     ctx.assumptions += ["shard_size is documented as an approximation knob and is outside the property's exact kinds",
                         "bucket lists are recognised as the receivers of truncate/retain/filter/take in finishers and merge arms"]
